@@ -99,7 +99,7 @@ def cases_of(tname, targs):
     if key in _CASES:
         return _CASES[key]
     import os
-    own = T.own_cases(tname, targs, cap=200 if os.environ.get('VERIF_TIER') == 'thorough' else 40)
+    own = T.own_cases(tname, targs, cap=400 if os.environ.get('VERIF_TIER') == 'thorough' else 96)
     nvar = T.max_var_n(tname, targs)
     out = []
     seen_cons = set()
@@ -132,10 +132,13 @@ def _mk(tname, targs, mod, cls, extra):
     cases = cases_of(tname, targs)
     cs = [{'i': i, 'shape': _label(tname, targs, c)} for i, c in enumerate(cases)]
     suffix = ''.join(str(x) for x in targs if type(x) is int)
+    how = 'all combinations of its own choice points (exhaustive)' if T.EXHAUSTIVE.get((tname, tuple(targs))) else \
+        'a covering sample of the combinations of its own choice points (every alternative of every choice point at least twice)'
 
     @obligation(f'C16.{tname}{suffix}', 'C16', cases=cs, fuc=[f'{mod}.{cls}.deserialize'],
-                descr=f'{cls}.deserialize on the schema encoding of every shape of {tname} {suffix} (fields symbolic over their full '
-                      f'range): every field returned with the encoded value, exactly the encoded bits and references consumed',
+                descr=f'{cls}.deserialize on the schema encoding of {tname} {suffix} in {len(cs)} shapes = {how} x nested profile x '
+                      f'var-integer length rotation (fields symbolic over their full range): every field returned with the encoded '
+                      f'value, exactly the encoded bits and references consumed',
                 budget={'seconds': 300, 'paths': 4000})
     def ob(w, i, shape, _t=tname, _a=targs, _m=mod, _c=cls, _x=extra):
         case = cases_of(_t, _a)[i]
